@@ -82,6 +82,51 @@ theorem pmap_add_present_key_keeps_old :
   refine ⟨add (fun k => k) (empty (2 ^ 3)) 1 10, ?_, by decide⟩
   exact inv_add _ _ (inv_empty _ 3) 1 10 (by decide)
 
+/-- what `Compute` does to the table under the mutex: re-check, then `add` only a key that is absent -/
+def addAbsent (hash : κ → Nat) (m : PMap κ γ) (kv : κ × γ) : PMap κ γ :=
+  if (get hash m kv.1).isNone then add hash m kv.1 kv.2 else m
+
+/-- the specification: a finite map in which the FIRST binding of a key wins -/
+def specAddAbsent (s : κ → Option γ) (kv : κ × γ) : κ → Option γ :=
+  fun k' => if (s kv.1).isNone ∧ k' = kv.1 then some kv.2 else s k'
+
+/-- refinement over whole histories: from ANY table satisfying `Inv` that agrees with a specification
+    map, any sequence of guarded additions - of any length, i.e. across any number of rehashes, for any
+    hash function, with repeated keys - keeps `Inv` and answers every lookup as the specification does -/
+theorem pmap_refines_map_from (hash : κ → Nat) (kvs : List (κ × γ)) :
+    ∀ (m : PMap κ γ) (s : κ → Option γ), Inv hash m → (∀ k, get hash m k = s k) →
+      Inv hash (kvs.foldl (addAbsent hash) m) ∧
+      ∀ k, get hash (kvs.foldl (addAbsent hash) m) k = (kvs.foldl specAddAbsent s) k := by
+  induction kvs with
+  | nil => intro m s h hs; exact ⟨h, hs⟩
+  | cons kv kvs ih =>
+    intro m s h hs
+    rw [List.foldl_cons, List.foldl_cons]
+    apply ih
+    · unfold addAbsent
+      split
+      · rename_i hn
+        exact inv_add hash m h kv.1 kv.2 (Option.isNone_iff_eq_none.1 hn)
+      · exact h
+    · intro k
+      unfold addAbsent specAddAbsent
+      rw [← hs kv.1]
+      by_cases hn : (get hash m kv.1).isNone = true
+      · rw [if_pos hn, pmap_get_add hash m h kv.1 kv.2 (Option.isNone_iff_eq_none.1 hn) k, ← hs k]
+        by_cases hk : k = kv.1
+        · rw [if_pos hk, if_pos ⟨hn, hk⟩]
+        · rw [if_neg hk, if_neg (fun hc => hk hc.2)]
+      · rw [if_neg hn, if_neg (fun hc => hn hc.1)]
+        exact hs k
+
+/-- ... in particular from the table `newProgramMap` creates: the cache IS a first-writer-wins map -/
+theorem pmap_refines_map (hash : κ → Nat) (e : Nat) (kvs : List (κ × γ)) :
+    Inv hash (kvs.foldl (addAbsent hash) (empty (2 ^ e) : PMap κ γ)) ∧
+    ∀ k, get hash (kvs.foldl (addAbsent hash) (empty (2 ^ e) : PMap κ γ)) k =
+      (kvs.foldl specAddAbsent (fun _ => none)) k :=
+  pmap_refines_map_from hash kvs _ _ (inv_empty hash e)
+    (fun k => (get_none_iff hash _ (wf_empty hash e) k).2 (fun v => mem_empty _ k v))
+
 /-- the executable check that the driver applies to every table dumped from the REAL `ProgramCache`
     after a racing round (`pcrace`) is sound for the invariant of these theorems -/
 theorem invCheck_sound (hash : κ → Nat) (m : PMap κ γ) (h : invCheck hash m = true) : Inv hash m :=
@@ -184,6 +229,13 @@ section Examples
 /-- every key on bucket 0: five colliding keys, three rehashes (capacity 2 → 16), all found -/
 example : let m := [1, 2, 3, 4, 5].foldl (fun m k => add (fun _ => 0) m k (k * 10)) (empty (2 ^ 1) : PMap Nat Nat)
     m.mask + 1 = 16 ∧ m.n = 5 ∧ [1, 2, 3, 4, 5, 6].map (get (fun _ => 0) m) = [some 10, some 20, some 30, some 40, some 50, none] := by
+  decide
+
+/-- `pmap_refines_map` on total collisions with a repeated key: the second binding of 2 is ignored -/
+example : let m := [(1, 10), (2, 20), (2, 99), (3, 30)].foldl (addAbsent (fun _ => 0)) (empty (2 ^ 1) : PMap Nat Nat)
+    [1, 2, 3, 4].map (get (fun _ => 0) m) = [some 10, some 20, some 30, none] ∧
+    [1, 2, 3, 4].map ([(1, 10), (2, 20), (2, 99), (3, 30)].foldl specAddAbsent (fun _ => none)) =
+      [some 10, some 20, some 30, none] := by
   decide
 
 private def progs2 : Tid → List (Op Nat)
